@@ -67,8 +67,9 @@ HasMinor(k) == \E R \in kSubset(k, 1..Len(Msum)), Cc \in kSubset(k, 1..d) :
                   LET r == SortSet(R) c == SortSet(Cc) IN Det([i \in 1..k |-> [j \in 1..k |-> Msum[r[i]][c[j]]]]) # 0
 RankUpTo(k, m) == IF k > m THEN m ELSE IF HasMinor(k) THEN RankUpTo(k + 1, m) ELSE k - 1
 Rank == RankUpTo(1, IMin2(d, Len(Msum)))
-RankClause == IF C.alpha[1] > 0 /\ C.rank_diff # 0 THEN "rank_diff-nonzero-for-positive-definite-matrix"
-              ELSE IF C.alpha[1] = 0 /\ C.rank_diff # d - Rank THEN "rank_diff-differs-from-dimension-minus-rank"
+\* (apos = 1: a positive regulariser below the fixed-point resolution, e.g. 1e-11, recorded as alpha = 0)
+RankClause == IF (C.alpha[1] > 0 \/ C.apos = 1) /\ C.rank_diff # 0 THEN "rank_diff-nonzero-for-positive-definite-matrix"
+              ELSE IF C.alpha[1] = 0 /\ C.apos = 0 /\ C.rank_diff # d - Rank THEN "rank_diff-differs-from-dimension-minus-rank"
               ELSE "ok"
 First(s) == LET bad == {i \in 1..Len(s) : s[i] # "ok"} IN IF bad = {} THEN "ok" ELSE s[SetMin(bad)]
 Verdict == IF C.raised THEN <<"rejected", "valid-input-raised">>
